@@ -25,6 +25,8 @@ REGISTRY = {
     "C11": ("vf.props.cli_family", "C11"),
     "C12": ("vf.props.cli_family", "C12"),
     "C20": ("vf.props.cli_family", "C20"),
+    "C08": ("vf.props.env_family", "C08"),
+    "C09": ("vf.props.env_family", "C09"),
 }
 
 
